@@ -43,7 +43,8 @@ theorem failsafeRule_out_matches (p : Pkt) (pp : ProtoPort) (h : p.matchesOut pp
 
 /-- **failsafe chains.**  In every table (raw / mangle / filter), a packet to a configured inbound
 failsafe port is ACCEPTed by `cali-failsafe-in` (and outbound by `cali-failsafe-out`). -/
-theorem failsafe_chain_accepts (cs : Chains) (f : Nat) (c : Config) (raw : Bool) (p : Pkt) (pp : ProtoPort) :
+theorem failsafe_chain_accepts (cs : Chains) (f : Nat) (c : Config) (raw : Bool) (p : Pkt) (pp : ProtoPort)
+    (hfam : pp.otherFamily = false) :
     (pp ∈ c.failsafeIn → p.matchesIn pp → runRules cs f (failsafeInChain c raw) p = .accept) ∧
     (pp ∈ c.failsafeOut → p.matchesOut pp → runRules cs f (failsafeOutChain c raw) p = .accept) := by
   constructor
@@ -57,7 +58,8 @@ theorem failsafe_chain_accepts (cs : Chains) (f : Nat) (c : Config) (raw : Bool)
         · obtain ⟨x, _, rfl⟩ := List.mem_map.1 hr; rfl
         · simp at hr
     · exact ⟨failsafeRule pp true true,
-        by simp only [failsafeInChain, List.mem_append, List.mem_map]; exact Or.inl ⟨pp, hpp, rfl⟩,
+        by simp only [failsafeInChain, List.mem_append, List.mem_map]
+           exact Or.inl ⟨pp, List.mem_filter.2 ⟨hpp, by simp [hfam]⟩, rfl⟩,
         failsafeRule_in_matches p pp hm⟩
   · intro hpp hm
     apply runRules_all_accept
@@ -69,7 +71,8 @@ theorem failsafe_chain_accepts (cs : Chains) (f : Nat) (c : Config) (raw : Bool)
         · obtain ⟨x, _, rfl⟩ := List.mem_map.1 hr; rfl
         · simp at hr
     · exact ⟨failsafeRule pp true false,
-        by simp only [failsafeOutChain, List.mem_append, List.mem_map]; exact Or.inl ⟨pp, hpp, rfl⟩,
+        by simp only [failsafeOutChain, List.mem_append, List.mem_map]
+           exact Or.inl ⟨pp, List.mem_filter.2 ⟨hpp, by simp [hfam]⟩, rfl⟩,
         failsafeRule_out_matches p pp hm⟩
 
 theorem conntrack_skipped (c : Config) (allow : Action) (p : Pkt) (hct : p.ct = 0) :
@@ -92,7 +95,7 @@ endpoint's chain: the jump to the failsafe chain comes before any policy.  (For 
 chains the conntrack state is irrelevant.)  The conntrack-state hypothesis is needed: see
 `failsafe_invalid_ct_dropped`. -/
 theorem failsafe_always_accepted (cs : Chains) (f : Nat) (c : Config) (k : HepKind) (tiers : List Tier)
-    (p : Pkt) (pp : ProtoPort) (hct : k.untracked = true ∨ p.ct = 0)
+    (p : Pkt) (pp : ProtoPort) (hfam : pp.otherFamily = false) (hct : k.untracked = true ∨ p.ct = 0)
     (hin : cs chFailsafeIn = some (failsafeInChain c k.untracked))
     (hout : cs chFailsafeOut = some (failsafeOutChain c k.untracked)) :
     (k.ingress = true → pp ∈ c.failsafeIn → p.matchesIn pp →
@@ -112,13 +115,13 @@ theorem failsafe_always_accepted (cs : Chains) (f : Nat) (c : Config) (k : HepKi
     rw [List.append_assoc, List.append_assoc, runRules_skip cs _ _ _ p hskip]
     simp only [hk, if_true, List.cons_append, List.nil_append]
     rw [runRules_cons_jump cs _ _ _ p chFailsafeIn (by simp [Rule.matches]) rfl,
-        runChain_succ cs f chFailsafeIn p _ hin, (failsafe_chain_accepts cs f c k.untracked p pp).1 hpp hm]
+        runChain_succ cs f chFailsafeIn p _ hin, (failsafe_chain_accepts cs f c k.untracked p pp hfam).1 hpp hm]
   · intro hk hpp hm
     unfold hepChain
     rw [List.append_assoc, List.append_assoc, runRules_skip cs _ _ _ p hskip]
     simp only [hk, Bool.false_eq_true, if_false, List.cons_append, List.nil_append]
     rw [runRules_cons_jump cs _ _ _ p chFailsafeOut (by simp [Rule.matches]) rfl,
-        runChain_succ cs f chFailsafeOut p _ hout, (failsafe_chain_accepts cs f c k.untracked p pp).2 hpp hm]
+        runChain_succ cs f chFailsafeOut p _ hout, (failsafe_chain_accepts cs f c k.untracked p pp hfam).2 hpp hm]
 
 def exCfg : Config :=
   { ipip := true, vxlan := false, vxlanPort := 4789, toHost := .drop, filterAllow := .accept,
@@ -321,14 +324,339 @@ theorem unknown_workload_iface_dropped_forward_partial (cs : Chains) (f : Nat) (
   unfold filterForwardChain
   rw [runRules_cons_clear cs _ _ _ p _ (by simp [Rule.matches]) rfl]
   by_cases hm : (({ crits := [.markClear markAccept], action := .jump chFromHepFwd } : Rule).matches
-      { p with mark := clearBits p.mark (markAll - markAccept) }) = true
+      { p with mark := clearBits p.mark markAllButAccept }) = true
   · rw [runRules_cons_jump cs _ _ _ _ chFromHepFwd hm rfl]
-    rcases hnoacc chFromHepFwd (Or.inl rfl) { p with mark := clearBits p.mark (markAll - markAccept) } rfl with h | ⟨q', h, hq'⟩
+    rcases hnoacc chFromHepFwd (Or.inl rfl) { p with mark := clearBits p.mark markAllButAccept } rfl with h | ⟨q', h, hq'⟩
     · rw [h]
     · rw [h]; exact hpfx c.prefixes q' hq' hwl
   · have hm' : (({ crits := [.markClear markAccept], action := .jump chFromHepFwd } : Rule).matches
-      { p with mark := clearBits p.mark (markAll - markAccept) }) = false := by simpa using hm
+      { p with mark := clearBits p.mark markAllButAccept }) = false := by simpa using hm
     rw [runRules_cons_nomatch cs _ _ _ _ hm']
     exact hpfx c.prefixes _ rfl hwl
+
+
+/-! ## whole-path failsafe theorems: from the static entry chain of each table to the verdict -/
+
+/-- `cali-from-host-endpoint` with one host endpoint on the packet's interface: a NEW failsafe
+packet is accepted by that endpoint's chain, whatever its tiers and policies. -/
+theorem hep_dispatch_in_accepts (cs : Chains) (f : Nat) (c : Config) (k : HepKind) (tiers : List Tier)
+    (iface : String) (p : Pkt) (pp : ProtoPort) (hfam : pp.otherFamily = false) (hk : k.ingress = true) (hct : k.untracked = true ∨ p.ct = 0)
+    (hdisp : cs chFromHep = some (hepDispatchChain true [iface]))
+    (hif : ifaceMatches iface p.inIf = true)
+    (hchain : cs ("cali-fh-" ++ iface) = some (hepChain c k tiers))
+    (hin : cs chFailsafeIn = some (failsafeInChain c k.untracked))
+    (hout : cs chFailsafeOut = some (failsafeOutChain c k.untracked))
+    (hpp : pp ∈ c.failsafeIn) (hm : p.matchesIn pp) :
+    runChain cs (f + 3) chFromHep p = .accept := by
+  rw [runChain_succ cs (f + 2) chFromHep p _ hdisp]
+  unfold hepDispatchChain
+  simp only [List.map_cons, List.map_nil, List.nil_append, if_true]
+  rw [runRules_cons_goto cs (f + 2) _ _ p ("cali-fh-" ++ iface) (by simp [Rule.matches, Crit.holds, hif]) rfl,
+      runChain_succ cs (f + 1) _ p _ hchain]
+  exact (failsafe_always_accepted cs f c k tiers p pp hfam hct hin hout).1 hk hpp hm
+
+theorem hep_dispatch_out_accepts (cs : Chains) (f : Nat) (c : Config) (k : HepKind) (tiers : List Tier)
+    (iface : String) (p : Pkt) (pp : ProtoPort) (hfam : pp.otherFamily = false) (hk : k.ingress = false) (hct : k.untracked = true ∨ p.ct = 0)
+    (hdisp : cs chToHep = some (hepDispatchChain false [iface]))
+    (hif : ifaceMatches iface p.outIf = true)
+    (hchain : cs ("cali-th-" ++ iface) = some (hepChain c k tiers))
+    (hin : cs chFailsafeIn = some (failsafeInChain c k.untracked))
+    (hout : cs chFailsafeOut = some (failsafeOutChain c k.untracked))
+    (hpp : pp ∈ c.failsafeOut) (hm : p.matchesOut pp) :
+    runChain cs (f + 3) chToHep p = .accept := by
+  rw [runChain_succ cs (f + 2) chToHep p _ hdisp]
+  unfold hepDispatchChain
+  simp only [List.map_cons, List.map_nil, List.nil_append, Bool.false_eq_true, if_false]
+  rw [runRules_cons_goto cs (f + 2) _ _ p ("cali-th-" ++ iface) (by simp [Rule.matches, Crit.holds, hif]) rfl,
+      runChain_succ cs (f + 1) _ p _ hchain]
+  exact (failsafe_always_accepted cs f c k tiers p pp hfam hct hin hout).2 hk hpp hm
+
+theorem matchesIn_mark (p : Pkt) (pp : ProtoPort) (m : Nat) (h : p.matchesIn pp) :
+    ({ p with mark := m } : Pkt).matchesIn pp := h
+
+theorem matchesOut_mark (p : Pkt) (pp : ProtoPort) (m : Nat) (h : p.matchesOut pp) :
+    ({ p with mark := m } : Pkt).matchesOut pp := h
+
+theorem vxlanNotrack_skip (cs : Chains) (f : Nat) (c : Config) (rest : List Rule) (p : Pkt) :
+    runRules cs f (vxlanNotrack c ++ rest) p = runRules cs f rest p := by
+  unfold vxlanNotrack
+  split
+  · exact runRules_cons_notrack cs f _ _ p rfl
+  · rfl
+
+/-- **failsafe, untracked path (raw PREROUTING), whole path.**  A packet to a configured inbound
+failsafe port arriving on a host endpoint's interface (not a workload interface) is ACCEPTed in the
+raw table before any untracked policy, whatever mark it carried, whatever the conntrack state. -/
+theorem failsafe_raw_prerouting (cs : Chains) (f : Nat) (c : Config) (tiers : List Tier) (iface : String)
+    (p : Pkt) (pp : ProtoPort) (hfam : pp.otherFamily = false)
+    (hnwl : ∀ pfx ∈ c.prefixes, ifaceMatches (pfx ++ "+") p.inIf = false)
+    (hdisp : cs chFromHep = some (hepDispatchChain true [iface])) (hif : ifaceMatches iface p.inIf = true)
+    (hchain : cs ("cali-fh-" ++ iface) = some (hepChain c .rawIn tiers))
+    (hin : cs chFailsafeIn = some (failsafeInChain c true)) (hout : cs chFailsafeOut = some (failsafeOutChain c true))
+    (hpp : pp ∈ c.failsafeIn) (hm : p.matchesIn pp) :
+    runRules cs (f + 3) (rawPreroutingChain c) p = .accept := by
+  unfold rawPreroutingChain
+  rw [runRules_cons_clear cs _ _ _ p markAll (by simp [Rule.matches]) rfl, vxlanNotrack_skip,
+      runRules_skip cs _ _ _ _ (by
+        intro r hr
+        obtain ⟨pfx, hpfx, rfl⟩ := List.mem_map.1 hr
+        simp [Rule.matches, Crit.holds, hnwl pfx hpfx])]
+  have hs := markSet_cleared p markAll 18 (by decide)
+  have hcl := markClear_cleared p markAll 18 (by decide)
+  rw [runRules_cons_nomatch cs _ _ _ _ (by simp only [Rule.matches, List.all_cons, List.all_nil, Bool.and_true]; exact hs),
+      runRules_cons_nomatch cs _ _ _ _ (by simp only [Rule.matches, List.all_cons, hs, Bool.false_and]),
+      runRules_cons_jump cs _ _ _ _ chFromHep (by simp only [Rule.matches, List.all_cons, List.all_nil, Bool.and_true]; exact hcl) rfl,
+      hep_dispatch_in_accepts cs f c .rawIn tiers iface ({ p with mark := clearBits p.mark markAll } : Pkt) pp hfam rfl (Or.inl rfl) hdisp hif hchain hin hout hpp
+        (matchesIn_mark p pp _ hm)]
+
+/-- **failsafe, untracked path (raw OUTPUT), whole path.** -/
+theorem failsafe_raw_output (cs : Chains) (f : Nat) (c : Config) (tiers : List Tier) (iface : String)
+    (p : Pkt) (pp : ProtoPort) (hfam : pp.otherFamily = false)
+    (hdisp : cs chToHep = some (hepDispatchChain false [iface])) (hif : ifaceMatches iface p.outIf = true)
+    (hchain : cs ("cali-th-" ++ iface) = some (hepChain c .rawOut tiers))
+    (hin : cs chFailsafeIn = some (failsafeInChain c true)) (hout : cs chFailsafeOut = some (failsafeOutChain c true))
+    (hpp : pp ∈ c.failsafeOut) (hm : p.matchesOut pp) :
+    runRules cs (f + 3) (rawOutputChain c) p = .accept := by
+  unfold rawOutputChain
+  rw [runRules_cons_clear cs _ _ _ p markAll (by simp [Rule.matches]) rfl,
+      runRules_cons_jump cs _ _ _ _ chToHep (by simp [Rule.matches]) rfl,
+      hep_dispatch_out_accepts cs f c .rawOut tiers iface ({ p with mark := clearBits p.mark markAll } : Pkt) pp hfam rfl (Or.inl rfl) hdisp hif hchain hin hout hpp
+        (matchesOut_mark p pp _ hm)]
+
+/-- **failsafe, pre-DNAT path (mangle PREROUTING), whole path.**  A NEW-connection packet to an
+inbound failsafe port on a host endpoint's interface is never dropped in the mangle table: it is
+ACCEPTed by the failsafe chain (or, if an earlier table already accepted it, handled by the
+configured mangle allow action). -/
+theorem failsafe_mangle_prerouting (cs : Chains) (f : Nat) (c : Config) (tiers : List Tier) (iface : String)
+    (p : Pkt) (pp : ProtoPort) (hfam : pp.otherFamily = false) (hallow : c.mangleAllow = .accept ∨ c.mangleAllow = .ret) (hct : p.ct = 0)
+    (hdisp : cs chFromHep = some (hepDispatchChain true [iface])) (hif : ifaceMatches iface p.inIf = true)
+    (hchain : cs ("cali-fh-" ++ iface) = some (hepChain c .mangleIn tiers))
+    (hin : cs chFailsafeIn = some (failsafeInChain c false)) (hout : cs chFailsafeOut = some (failsafeOutChain c false))
+    (hpp : pp ∈ c.failsafeIn) (hm : p.matchesIn pp) :
+    NotDropped (runRules cs (f + 3) (manglePreroutingChain c) p) := by
+  unfold manglePreroutingChain
+  rw [runRules_cons_nomatch cs _ _ _ p (by simp [Rule.matches, Crit.holds, hct])]
+  rcases allow_rules cs (f + 3) c.mangleAllow hallow
+      [{ crits := [.markSet markAccept], action := c.mangleAllow }] _ p (by intro r hr; simp at hr; subst hr; rfl) with h | h
+  · exact h
+  · simp only [List.cons_append, List.nil_append] at h
+    rw [h, runRules_cons_jump cs _ _ _ p chFromHep (by simp [Rule.matches]) rfl,
+        hep_dispatch_in_accepts cs f c .mangleIn tiers iface p pp hfam rfl (Or.inr hct) hdisp hif hchain hin hout hpp hm]
+    exact Or.inl rfl
+
+theorem input_tunnel_rules_skipped' (c : Config) (p : Pkt) (h4 : p.proto ≠ 4)
+    (h17 : ¬ (p.proto = 17 ∧ p.dport = c.vxlanPort)) : ∀ r ∈ inputTunnelRules c, r.matches p = false := by
+  intro r hr
+  unfold inputTunnelRules at hr
+  rcases List.mem_append.1 hr with hr | hr
+  · split at hr
+    · simp at hr; rcases hr with rfl | rfl <;> simp [Rule.matches, Crit.holds, h4]
+    · simp at hr
+  · split at hr
+    · simp at hr
+      rcases hr with rfl | rfl
+      · simp only [Rule.matches, List.all_cons, List.all_nil, Crit.holds, Bool.and_true]
+        by_cases e : p.proto = 17
+        · have : p.dport ≠ c.vxlanPort := fun e' => h17 ⟨e, e'⟩
+          simp [e, this]
+        · simp [e]
+      · simp only [Rule.matches, List.all_cons, List.all_nil, Crit.holds, Bool.and_true]
+        by_cases e : p.proto = 17
+        · have : p.dport ≠ c.vxlanPort := fun e' => h17 ⟨e, e'⟩
+          simp [e, this]
+        · simp [e]
+    · simp at hr
+
+/-- **failsafe, normal path (filter INPUT), whole path.**  A NEW-connection packet to an inbound
+failsafe port on a host endpoint's interface (not a workload interface, not tunnel traffic) is never
+dropped by `cali-INPUT`: the failsafe chain ACCEPTs it before any policy. -/
+theorem failsafe_filter_input (cs : Chains) (f : Nat) (c : Config) (tiers : List Tier) (iface : String)
+    (p : Pkt) (pp : ProtoPort) (hfam : pp.otherFamily = false) (hallow : c.filterAllow = .accept ∨ c.filterAllow = .ret) (hct : p.ct = 0)
+    (h4 : p.proto ≠ 4) (h17 : ¬ (p.proto = 17 ∧ p.dport = c.vxlanPort))
+    (hnwl : ∀ pfx ∈ c.prefixes, ifaceMatches (pfx ++ "+") p.inIf = false)
+    (hdisp : cs chFromHep = some (hepDispatchChain true [iface])) (hif : ifaceMatches iface p.inIf = true)
+    (hchain : cs ("cali-fh-" ++ iface) = some (hepChain c .filterIn tiers))
+    (hin : cs chFailsafeIn = some (failsafeInChain c false)) (hout : cs chFailsafeOut = some (failsafeOutChain c false))
+    (hpp : pp ∈ c.failsafeIn) (hm : p.matchesIn pp) :
+    NotDropped (runRules cs (f + 3) (filterInputChain c) p) := by
+  unfold filterInputChain
+  rw [runRules_skip cs _ _ _ p (input_tunnel_rules_skipped' c p h4 h17),
+      runRules_skip cs _ _ _ p (by
+        intro r hr
+        obtain ⟨pfx, hpfx, rfl⟩ := List.mem_map.1 hr
+        simp [inputPrefixRule, Rule.matches, Crit.holds, hnwl pfx hpfx])]
+  unfold inputTail
+  rcases allow_rules cs (f + 3) c.filterAllow hallow
+      [{ crits := [.markSet markAccept], action := c.filterAllow }] _ p (by intro r hr; simp at hr; subst hr; rfl) with h | h
+  · exact h
+  · simp only [List.cons_append, List.nil_append] at h
+    rw [h, runRules_cons_clear cs _ _ _ p markAll (by simp [Rule.matches]) rfl,
+        runRules_cons_jump cs _ _ _ _ chFromHep (by simp [Rule.matches]) rfl,
+        hep_dispatch_in_accepts cs f c .filterIn tiers iface ({ p with mark := clearBits p.mark markAll } : Pkt) pp hfam rfl (Or.inr hct) hdisp hif hchain hin hout hpp
+          (matchesIn_mark p pp _ hm)]
+    exact Or.inl rfl
+
+/-- **failsafe, normal path (filter OUTPUT), whole path.**  A NEW-connection, not DNAT'ed packet from
+the host to an outbound failsafe port leaving through a host endpoint's interface is never dropped
+by `cali-OUTPUT`.  (DNAT'ed packets are policed in mangle POSTROUTING, which is not modelled.) -/
+theorem failsafe_filter_output (cs : Chains) (f : Nat) (c : Config) (tiers : List Tier) (iface : String)
+    (p : Pkt) (pp : ProtoPort) (hfam : pp.otherFamily = false) (hallow : c.filterAllow = .accept ∨ c.filterAllow = .ret) (hct : p.ct = 0)
+    (hdnat : p.dnat = false)
+    (hnwl : ∀ pfx ∈ c.prefixes, ifaceMatches (pfx ++ "+") p.outIf = false)
+    (hdisp : cs chToHep = some (hepDispatchChain false [iface])) (hif : ifaceMatches iface p.outIf = true)
+    (hchain : cs ("cali-th-" ++ iface) = some (hepChain c .filterOut tiers))
+    (hin : cs chFailsafeIn = some (failsafeInChain c false)) (hout : cs chFailsafeOut = some (failsafeOutChain c false))
+    (hpp : pp ∈ c.failsafeOut) (hm : p.matchesOut pp) :
+    NotDropped (runRules cs (f + 3) (filterOutputChain c) p) := by
+  unfold filterOutputChain
+  rcases allow_rules cs (f + 3) c.filterAllow hallow
+      [{ crits := [.markSet markAccept], action := c.filterAllow }]
+      (c.prefixes.map outputPrefixRule ++ (outputTunnelRules c ++ outputTail c)) p
+      (by intro r hr; simp at hr; subst hr; rfl) with h | h
+  · exact h
+  have h' : runRules cs (f + 3) ({ crits := [.markSet markAccept], action := c.filterAllow } ::
+      (c.prefixes.map outputPrefixRule ++ (outputTunnelRules c ++ outputTail c))) p =
+      runRules cs (f + 3) (c.prefixes.map outputPrefixRule ++ (outputTunnelRules c ++ outputTail c)) p := h
+  rw [h', runRules_skip cs _ _ _ p (by
+        intro r hr
+        obtain ⟨pfx, hpfx, rfl⟩ := List.mem_map.1 hr
+        simp [outputPrefixRule, Rule.matches, Crit.holds, hnwl pfx hpfx])]
+  rcases allow_rules cs (f + 3) c.filterAllow hallow (outputTunnelRules c) (outputTail c) p (by
+      intro r hr
+      unfold outputTunnelRules at hr
+      rcases List.mem_append.1 hr with hr | hr
+      · split at hr
+        · simp at hr; subst hr; rfl
+        · simp at hr
+      · split at hr
+        · simp at hr; subst hr; rfl
+        · simp at hr) with h2 | h2
+  · exact h2
+  rw [h2]
+  unfold outputTail
+  rw [runRules_cons_clear cs _ _ _ p markAll (by simp [Rule.matches]) rfl,
+      runRules_cons_jump cs _ _ _ _ chToHep (by simp [Rule.matches, Crit.holds, hdnat]) rfl,
+      hep_dispatch_out_accepts cs f c .filterOut tiers iface ({ p with mark := clearBits p.mark markAll } : Pkt) pp hfam rfl (Or.inr hct) hdisp hif hchain hin hout hpp
+        (matchesOut_mark p pp _ hm)]
+  exact Or.inl rfl
+
+/-! ## ESTABLISHED / RELATED packets (failsafe or not) are never dropped by host endpoint policy -/
+
+/-- In every tracked host endpoint chain (filter, mangle) the first thing is the conntrack rule: a
+packet of an ESTABLISHED/RELATED connection gets the chain's allow action (ACCEPT, or mark+RETURN),
+whatever the tiers and policies.  Together with `failsafe_always_accepted` (NEW packets) this covers
+every conntrack state except INVALID (see `failsafe_invalid_ct_dropped`). -/
+theorem established_never_dropped_by_hep_chain (cs : Chains) (f : Nat) (c : Config) (k : HepKind) (tiers : List Tier)
+    (p : Pkt) (hk : k.untracked = false) (hallow : k.allow c = .accept ∨ k.allow c = .ret) (hct : p.ct = 1) :
+    NotDropped (runRules cs f (hepChain c k tiers) p) := by
+  unfold hepChain conntrackRules
+  simp only [hk, Bool.false_eq_true, if_false, List.append_assoc]
+  rcases hallow with ha | ha
+  · simp only [ha, bne_self_eq_false, Bool.false_eq_true, if_false, List.nil_append, List.cons_append]
+    exact head_allow_notdropped cs f _ _ p (by simp [Rule.matches, Crit.holds, hct]) (Or.inl rfl)
+  · have hne : (Action.ret != Action.accept) = true := by decide
+    simp only [ha, hne, if_true, List.cons_append, List.nil_append]
+    rw [runRules_cons_setMark cs f _ _ p markAccept (by simp [Rule.matches, Crit.holds, hct]) rfl]
+    exact head_allow_notdropped cs f _ _ _ (by simp [Rule.matches, Crit.holds, hct]) (Or.inr rfl)
+
+/-- whole path, mangle PREROUTING: an ESTABLISHED/RELATED packet gets the mangle allow action at once. -/
+theorem established_mangle_prerouting (cs : Chains) (f : Nat) (c : Config) (p : Pkt)
+    (hallow : c.mangleAllow = .accept ∨ c.mangleAllow = .ret) (hct : p.ct = 1) :
+    NotDropped (runRules cs f (manglePreroutingChain c) p) := by
+  unfold manglePreroutingChain
+  exact head_allow_notdropped cs f _ _ p (by simp [Rule.matches, Crit.holds, hct]) hallow
+
+/-- whole path, filter INPUT: an ESTABLISHED/RELATED packet on a host endpoint's interface is not
+dropped by `cali-INPUT`, whatever the host endpoint's policy. -/
+theorem established_filter_input (cs : Chains) (f : Nat) (c : Config) (tiers : List Tier) (iface : String)
+    (p : Pkt) (hallow : c.filterAllow = .accept ∨ c.filterAllow = .ret) (hct : p.ct = 1)
+    (h4 : p.proto ≠ 4) (h17 : ¬ (p.proto = 17 ∧ p.dport = c.vxlanPort))
+    (hnwl : ∀ pfx ∈ c.prefixes, ifaceMatches (pfx ++ "+") p.inIf = false)
+    (hdisp : cs chFromHep = some (hepDispatchChain true [iface])) (hif : ifaceMatches iface p.inIf = true)
+    (hchain : cs ("cali-fh-" ++ iface) = some (hepChain c .filterIn tiers)) :
+    NotDropped (runRules cs (f + 3) (filterInputChain c) p) := by
+  unfold filterInputChain
+  rw [runRules_skip cs _ _ _ p (input_tunnel_rules_skipped' c p h4 h17),
+      runRules_skip cs _ _ _ p (by
+        intro r hr
+        obtain ⟨pfx, hpfx, rfl⟩ := List.mem_map.1 hr
+        simp [inputPrefixRule, Rule.matches, Crit.holds, hnwl pfx hpfx])]
+  unfold inputTail
+  rcases allow_rules cs (f + 3) c.filterAllow hallow
+      [{ crits := [.markSet markAccept], action := c.filterAllow }] _ p (by intro r hr; simp at hr; subst hr; rfl) with h | h
+  · exact h
+  · simp only [List.cons_append, List.nil_append] at h
+    rw [h, runRules_cons_clear cs _ _ _ p markAll (by simp [Rule.matches]) rfl,
+        runRules_cons_jump cs _ _ _ _ chFromHep (by simp [Rule.matches]) rfl,
+        runChain_succ cs (f + 2) chFromHep _ _ hdisp]
+    unfold hepDispatchChain
+    simp only [List.map_cons, List.map_nil, List.nil_append, if_true]
+    rw [runRules_cons_goto cs (f + 2) _ _ _ ("cali-fh-" ++ iface) (by simp [Rule.matches, Crit.holds, hif]) rfl,
+        runChain_succ cs (f + 1) _ _ _ hchain]
+    rcases established_never_dropped_by_hep_chain cs (f + 1) c .filterIn tiers
+        ({ p with mark := clearBits p.mark markAll } : Pkt) rfl hallow hct with e | ⟨q, e⟩
+    · rw [e]; exact Or.inl rfl
+    · rw [e]; exact single_allow_notdropped cs (f + 3) _ q hallow
+
+/-- whole path, filter OUTPUT: the same for traffic leaving through a host endpoint's interface. -/
+theorem established_filter_output (cs : Chains) (f : Nat) (c : Config) (tiers : List Tier) (iface : String)
+    (p : Pkt) (hallow : c.filterAllow = .accept ∨ c.filterAllow = .ret) (hct : p.ct = 1) (hdnat : p.dnat = false)
+    (hnwl : ∀ pfx ∈ c.prefixes, ifaceMatches (pfx ++ "+") p.outIf = false)
+    (hdisp : cs chToHep = some (hepDispatchChain false [iface])) (hif : ifaceMatches iface p.outIf = true)
+    (hchain : cs ("cali-th-" ++ iface) = some (hepChain c .filterOut tiers)) :
+    NotDropped (runRules cs (f + 3) (filterOutputChain c) p) := by
+  unfold filterOutputChain
+  rcases allow_rules cs (f + 3) c.filterAllow hallow
+      [{ crits := [.markSet markAccept], action := c.filterAllow }]
+      (c.prefixes.map outputPrefixRule ++ (outputTunnelRules c ++ outputTail c)) p
+      (by intro r hr; simp at hr; subst hr; rfl) with h | h
+  · exact h
+  have h' : runRules cs (f + 3) ({ crits := [.markSet markAccept], action := c.filterAllow } ::
+      (c.prefixes.map outputPrefixRule ++ (outputTunnelRules c ++ outputTail c))) p =
+      runRules cs (f + 3) (c.prefixes.map outputPrefixRule ++ (outputTunnelRules c ++ outputTail c)) p := h
+  rw [h', runRules_skip cs _ _ _ p (by
+        intro r hr
+        obtain ⟨pfx, hpfx, rfl⟩ := List.mem_map.1 hr
+        simp [outputPrefixRule, Rule.matches, Crit.holds, hnwl pfx hpfx])]
+  rcases allow_rules cs (f + 3) c.filterAllow hallow (outputTunnelRules c) (outputTail c) p (by
+      intro r hr
+      unfold outputTunnelRules at hr
+      rcases List.mem_append.1 hr with hr | hr
+      · split at hr
+        · simp at hr; subst hr; rfl
+        · simp at hr
+      · split at hr
+        · simp at hr; subst hr; rfl
+        · simp at hr) with h2 | h2
+  · exact h2
+  rw [h2]
+  unfold outputTail
+  rw [runRules_cons_clear cs _ _ _ p markAll (by simp [Rule.matches]) rfl,
+      runRules_cons_jump cs _ _ _ _ chToHep (by simp [Rule.matches, Crit.holds, hdnat]) rfl,
+      runChain_succ cs (f + 2) chToHep _ _ hdisp]
+  unfold hepDispatchChain
+  simp only [List.map_cons, List.map_nil, List.nil_append, Bool.false_eq_true, if_false]
+  rw [runRules_cons_goto cs (f + 2) _ _ _ ("cali-th-" ++ iface) (by simp [Rule.matches, Crit.holds, hif]) rfl,
+      runChain_succ cs (f + 1) _ _ _ hchain]
+  rcases established_never_dropped_by_hep_chain cs (f + 1) c .filterOut tiers
+      ({ p with mark := clearBits p.mark markAll } : Pkt) rfl hallow hct with e | ⟨q, e⟩
+  · rw [e]; exact Or.inl rfl
+  · rw [e]; exact single_allow_notdropped cs (f + 3) _ q hallow
+
+/-- non-vacuity / concrete whole-path run: ssh from 0.0.0.1 to the host on eth0 with a deny-all
+host endpoint policy is accepted in raw PREROUTING and in filter INPUT; telnet is dropped in INPUT. -/
+def exChains2 (k : HepKind) : Chains := fun n =>
+  if n = chFailsafeIn then some (failsafeInChain exCfg k.untracked)
+  else if n = chFailsafeOut then some (failsafeOutChain exCfg k.untracked)
+  else if n = chFromHep then some (hepDispatchChain true ["eth0"])
+  else if n = "cali-fh-eth0" then some (hepChain exCfg k exTiers)
+  else if n = "cali-pi-gnp/deny-all" then some [{ action := .drop }]
+  else none
+
+example :
+    runRules (exChains2 .rawIn) 5 (rawPreroutingChain exCfg) { exPkt with mark := 0x50000 } = .accept ∧
+    runRules (exChains2 .filterIn) 5 (filterInputChain exCfg) exPkt = .accept ∧
+    runRules (exChains2 .filterIn) 5 (filterInputChain exCfg) { exPkt with dport := 23 } = .drop := by
+  decide
 
 end CalicoVerif.C40
